@@ -778,6 +778,33 @@ fn api_case(rep: &mut Report, drv: &mut Model, seed: u64, idx: u64) {
     if l1.iter().any(|id| !all_tests.iter().any(|(_, t)| t.id == *id)) {
         rep.violation("a non-test function body ran during run_tests", "function ran as test", witness.clone());
     }
+    // ---- the host's own runner: `Package::get_tests()` + `TestCase::run` (public API; the
+    // cases one by one).  The i-th handle must carry the name of the i-th block in sorted key
+    // order, run exactly that block's body, and report exactly that block's verdict.
+    if all_tests.len() <= 64 {
+        let mut sorted: Vec<&(String, &TestDecl)> = all_tests.iter().collect();
+        sorted.sort_by(|a, b| a.0.cmp(&b.0));
+        take_log();
+        let cases: Vec<_> = pkg.get_tests().collect();
+        let mut per_case = vec![];
+        for tc in &cases {
+            let r = quiet(|| tc.run(&mut NoCtx));
+            per_case.push((tc.name().to_string(), r.is_ok(), take_log()));
+        }
+        rep.hist("entry points (host runner: get_tests + TestCase::run)", cases.len().min(12).to_string());
+        for (i, (name, ok, log)) in per_case.iter().enumerate() {
+            let Some((key, decl)) = sorted.get(i) else { break };
+            let want_name = key.replace("test#", "");
+            if *name != want_name || *ok != decl.accept || *log != vec![decl.id] {
+                rep.violation(
+                    &format!("the {i}-th test case of get_tests() (name `{name}`) is not the block {key}: it must be called `{want_name}`, run the body {} once and return {}; it ran {log:?} and returned {}", decl.id, if decl.accept { "Ok" } else { "Err" }, if *ok { "Ok" } else { "Err" }),
+                    "test case handle is not its block",
+                    json!({"case": cj, "index": i, "key": key, "handle": [name, ok, log]}),
+                );
+                break;
+            }
+        }
+    }
     if l1 != l2 || r1 != r2 {
         rep.violation(
             "two run_tests calls on one package differ",
